@@ -41,6 +41,9 @@ def shards(tier, seed):
     out += [{"kind": "mer", "part": p} for p in range(16)]
     out += [{"kind": "large", "dims": d, "cost": c} for d in ([63, 60, 90], [127, 120, 40])
             for c in ((1.0, 1.0, 1.0), (1.0, 0.5, 2.0))]
+    out += [{"kind": "large", "dims": [31, 30, 40], "cost": (1.0, 2.0, 3.0), "id_offset": S.BIG_ID},
+            {"kind": "large", "dims": [31, 30, 40], "cost": (1, 1, 1.5), "jit": True},
+            {"kind": "large", "dims": [9, 11, 17], "cost": (1.0, 1.0, 1.0), "jit": True}]
     return out
 
 
@@ -294,11 +297,11 @@ def _mer_shard(ctx, part, nparts, tier, seed):
     ctx.sample({"mer_part": part, "example_hyps": hyps, "example_refs": refs, "logp": logp})
 
 
-def _large(ctx, R, H, N, cost, seed):
+def _large(ctx, R, H, N, cost, seed, id_offset=0, jit=False):
     """Larger instance handed in as offset, non-contiguous views: error_rate / prefix_error_rates against an
     integer DP carrying the fewest and most edits over optimal alignments."""
-    eos = 3
-    refs, hyps, ref, hyp = S.large_batch(R, H, N, seed, eos)
+    eos = 3 + id_offset
+    refs, hyps, ref, hyp = S.large_batch(R, H, N, seed, 3, id_offset)
     ci, cd, cs = (int(round(c * 2)) for c in cost)
     uniform = cost[0] == cost[1] == cost[2]
     for include_eos in (False, True):
@@ -312,12 +315,40 @@ def _large(ctx, R, H, N, cost, seed):
             r0, h0 = r_in.clone(), h_in.clone()
             kw = dict(eos=eos, include_eos=include_eos, norm=norm, batch_first=batch_first, ins_cost=cost[0],
                       del_cost=cost[1], sub_cost=cost[2])
-            case = {"kind": "large", "R": R, "H": H, "N": N, "cost": cost, "seed": seed, **kw}
+            case = {"kind": "large", "R": R, "H": H, "N": N, "cost": cost, "seed": seed, "id_offset": id_offset,
+                    "jit": jit, **kw}
             ctx.case(2 * N, 2 * N)
             try:
                 er_out = F.error_rate(r_in, h_in, warn=False, **kw).tolist()
                 pe = F.prefix_error_rates(r_in, h_in, warn=False, **kw)
                 pe = (pe if batch_first else pe.t()).tolist()
+                if jit:  # scripted / traced modules (traced on an unrelated one-token example) must agree with eager
+                    fkw = {k: (float(v) if k.endswith("_cost") else v) for k, v in kw.items()}
+                    ex = (torch.full((1, 1), eos, dtype=torch.long),) * 2
+                    # a second tracing example that contains no empty reference and has another length
+                    ex2 = (torch.tensor([[id_offset, 1 + id_offset, eos]]).t() if not batch_first
+                           else torch.tensor([[id_offset, 1 + id_offset, eos]]),) * 2
+                    jv = [(nm, v, "eos-only-example") for nm, v in S.jit_variants(lambda: M.ErrorRate(warn=False, **fkw), ex)]
+                    jv += [(nm, v, "three-token-example") for nm, v in
+                           S.jit_variants(lambda: M.ErrorRate(warn=False, **fkw), ex2) if nm == "traced"]
+                    for nm, v, exname in jv:
+                        if isinstance(v, Exception):
+                            raise v
+                        o2 = v(r_in, h_in).tolist()
+                        if any(not (S.close(a, b) or (a != a and b != b)) for a, b in zip(o2, er_out)):
+                            ctx.violation({"api": "ErrorRate/" + nm, "symptom": "differs-from-eager", "large": True,
+                                           "norm": norm, "example": exname}, case, {"eager": er_out[:4], nm: o2[:4]})
+                    # eos unset: every stored token counts; the traced module must follow the reference length
+                    nkw = dict(fkw, eos=None, include_eos=False)
+                    eager_ne = F.error_rate(r_in, h_in, warn=False, **nkw).tolist()
+                    exn = (torch.zeros((3, 1) if not batch_first else (1, 3), dtype=torch.long),) * 2
+                    for nm, v in S.jit_variants(lambda: M.ErrorRate(warn=False, **nkw), exn):
+                        if isinstance(v, Exception):
+                            raise v
+                        o2 = v(r_in, h_in).tolist()
+                        if any(not S.close(a, b) for a, b in zip(o2, eager_ne)):
+                            ctx.violation({"api": "ErrorRate/" + nm, "symptom": "differs-from-eager", "large": True,
+                                           "norm": norm, "example": "no-eos"}, case, {"eager": eager_ne[:4], nm: o2[:4]})
             except Exception as e:
                 ctx.violation({"api": "error_rate", "symptom": "raises", "type": type(e).__name__, "large": True},
                               case, {"error": str(e)[-300:]})
@@ -355,7 +386,8 @@ def run_shard(spec, tier, seed):
         for gs in S.GLOBAL_STATES:  # the same instance under every global torch state: results must not change
             sub = Ctx()
             with S.global_state(gs):
-                _large(sub, *spec["dims"], tuple(spec["cost"]), seed)
+                _large(sub, *spec["dims"], tuple(spec["cost"]), seed, spec.get("id_offset", 0),
+                       spec.get("jit", False) and gs == "default")
             for v in sub.violations:
                 v["sig"]["global_state"] = gs
             sub.viol_count = type(sub.viol_count)({k.replace("}", ', "global_state": "%s"}' % gs, 1) if k.endswith("}") else k: n
@@ -395,7 +427,8 @@ def run_shard(spec, tier, seed):
 def replay(case):
     ctx = Ctx()
     if case["kind"] == "large":
-        _large(ctx, case["R"], case["H"], case["N"], tuple(case["cost"]), case["seed"])
+        _large(ctx, case["R"], case["H"], case["N"], tuple(case["cost"]), case["seed"], case.get("id_offset", 0),
+               case.get("jit", False))
         return ctx
     if case["kind"] == "mer":
         _mer_case(ctx, case["refs"], case["hyps"], case["logp"], case["eos"], case["include_eos"],
